@@ -92,6 +92,12 @@ Tags(ev) ==
   LET pre == States[ev.pre]  post == States[ev.post] B == BrokenBy(ev, pre, post) IN
   <<ev.call.op, IF ev.call.h \in {"g1", "g2"} THEN "target_graph" ELSE "target_hrg">>
      \o (IF B # {} THEN <<IF KindTag(post[CHOOSE h \in B : TRUE]) = "graph" THEN "broken_graph" ELSE "broken_hrg">> ELSE <<>>)
+     \* signature of the second shared-rhs finding: BEFORE the call, a rule of the target grammar already uses an edge label
+     \* its own label table does not know (add_rule registers every label of the rule, so this can only come from a
+     \* right-hand side mutated after add_rule, or from a copy of such a grammar)
+     \o (IF pre[ev.call.h].k \in {"hrg", "fgg"} /\
+            (\E i \in DOMAIN pre[ev.call.h].rules : \E e \in pre[ev.call.h].rules[i].rhs.edges : e.lab \notin pre[ev.call.h].els)
+         THEN <<"rhs_label_unknown_to_grammar">> ELSE <<>>)
 
 \* (events recorded from the repository's own tests carry no arguments: no drift measurement)
 Drift(ev) == IF "nodrift" \in DOMAIN ev THEN FALSE
